@@ -310,7 +310,7 @@ def _extract_class(src, mod: Module, c: ast.ClassDef, menv: dict, done: dict) ->
             if isinstance(t, ast.Name):
                 name = t.id
                 if name == "tokens":
-                    tokens = _token_names(st.value)
+                    tokens = _token_names(st.value, seqs=module_str_seqs(mod))
                     continue
                 if name == "ignore":
                     s = fold_str(st.value, env)
@@ -459,11 +459,27 @@ def _extract_class(src, mod: Module, c: ast.ClassDef, menv: dict, done: dict) ->
                       error_func, owner, remaps, bases)
 
 
-def _token_names(node, allow_str=False) -> list[str]:
+def module_str_seqs(mod) -> dict:
+    """Module-level names bound to a tuple / list / set display of string constants (token-name groups)."""
+    out = {}
+    for st in mod.tree.body:
+        val = None
+        if isinstance(st, ast.Assign) and len(st.targets) == 1 and isinstance(st.targets[0], ast.Name):
+            name, val = st.targets[0].id, st.value
+        elif isinstance(st, ast.AnnAssign) and isinstance(st.target, ast.Name) and st.value is not None:
+            name, val = st.target.id, st.value
+        if isinstance(val, (ast.Tuple, ast.List, ast.Set)) and val.elts and all(isinstance(e, ast.Constant) and isinstance(e.value, str) for e in val.elts):
+            out[name] = [e.value for e in val.elts]
+    return out
+
+
+def _token_names(node, allow_str=False, seqs=None) -> list[str]:
     if isinstance(node, (ast.Set, ast.List, ast.Tuple)):
         out = []
         for e in node.elts:
-            if isinstance(e, ast.Name):
+            if isinstance(e, ast.Starred) and isinstance(e.value, ast.Name) and seqs and e.value.id in seqs:
+                out.extend(seqs[e.value.id])
+            elif isinstance(e, ast.Name):
                 out.append(e.id)
             elif isinstance(e, ast.Constant) and isinstance(e.value, str):
                 out.append(e.value)
